@@ -166,6 +166,11 @@ impl Assembler {
             bytes.len()
         );
         self.end = self.end.max(offset + bytes.len() as u64);
+        if bytes.is_empty() {
+            // Nothing to store. In particular, don't record an empty range as received: it would
+            // make later data that overlaps it look new.
+            return Ok(());
+        }
         if let State::Unordered { ref mut recvd } = self.state {
             // Discard duplicate data
             for duplicate in recvd.replace(offset..offset + bytes.len() as u64) {
